@@ -354,7 +354,7 @@ IM_THEOREMS = ['IM.delivery_safe', 'IM.fifo_consumption', 'IM.happened_before', 
                'IM.fs_is_gen', 'IM.ffs_is_gen', 'IM.downsize_is_gen', 'IM.endPos_is_gen', 'IM.single_is_gen', 'IM.want_is_gen']
 PROPS['C02'] = {
     'modules': ['IpcModel.Props.C02'],
-    'theorems': ['C02.C02_whole', 'C02.C02_once_ordered', 'C02.C02_ok_in_order', 'C02.C02_hb', 'C02.C02_whole_with_attachments', 'C02.C02_shape_followups_blocking', 'C02.C02_signal_transparent', 'RecvSig.loop_retry'] + IM_THEOREMS,
+    'theorems': ['C02.C02_whole', 'C02.C02_once_ordered', 'C02.C02_ok_in_order', 'C02.C02_hb', 'C02.C02_whole_with_attachments', 'C02.C02_shape_followups_blocking', 'C02.C02_signal_transparent', 'RecvSig.loop_retry', 'RecvSig.loop_norestore_corrupt'] + IM_THEOREMS,
     'scenarios': sched_scen(480, 12000),
     'search': search_sched,
     'rule': ('1..3 real sender threads x 1..2 messages each (sizes around the packet boundaries, 1..4 packets) and a real receiver thread, every sendmsg/send/'
@@ -373,7 +373,7 @@ PROPS['C02'] = {
 }
 PROPS['C12'] = {
     'modules': ['IpcModel.Props.C12'],
-    'theorems': ['C12.C12_intact', 'C12.C12_no_wait_on_dead', 'C12.C12_truncated_not_closed', 'C12.C12_own_attachments', 'C12.C12_attachments_all_schedules', 'IM.att_run'] + IM_THEOREMS,
+    'theorems': ['C12.C12_intact', 'C12.C12_no_wait_on_dead', 'C12.C12_truncated_not_closed', 'C12.C12_own_attachments', 'C12.C12_attachments_all_schedules', 'C12.C12_sigchld_transparent', 'IM.att_run'] + IM_THEOREMS,
     'scenarios': sched_scen(480, 12000),
     'search': search_sched,
     'rule': PROPS['C02']['rule'] + '; for C12 the injected fatal errors (x) abort a send at every packet position with other senders surviving',
@@ -405,7 +405,8 @@ PROPS['C02']['rule'] += ('; sigrecv: 2/3/5-fragment messages (thorough: up to 9)
                          'sender is gone), ungated stress rounds (1..6 sender threads on clones, mixed sizes, handles dropped at once; recv / spinning try_recv / try_recv_timeout / select; per-sender order, exactly-once, disconnection last), '
                          'eofrace (message then immediate drop vs a polling receiver), world programs compared with the specification, and receiver-set scripts (delivery through select: per-member order and exactly-once, incl. '
                          'many members ready at once and one batch of several MiB, then silence)')
-PROPS['C12']['scenarios'] = (lambda old: (lambda tier, seed: old(tier, seed) + crash_scen(tier, seed)))(sched_scen(240, 6000))
+# a sender that dies raises SIGCHLD in its parent: if the parent is the receiver and is reassembling a survivor's message, its read is cut short by the signal (sigrecv)
+PROPS['C12']['scenarios'] = (lambda old: (lambda tier, seed: old(tier, seed) + crash_scen(tier, seed) + [{'args': ['sigrecv', '--tier', tier]}]))(sched_scen(240, 6000))
 PROPS['C12']['rule'] += ('; crash: a spawned sender process is killed by its interposer immediately before counted system call k (socketpair, every sendmsg/send, every '
                          'close) of one send, for every k, for shapes of 1..6 packets, with/without an attachment, with 0 or 1 surviving sender handle in another process, '
                          'observed by blocking recv, try_recv polling and a receiver set; the crash point is replayed in the model')
